@@ -1146,3 +1146,36 @@ Proof.
           AdEnd; StStop 0; SEnd 0; FwRecv 0].
   eexists. split; [repeat constructor|]. vm_compute. auto.
 Qed.
+
+(* ================================================================ 7. the write loop releases the reader *)
+
+(* Whichever way the write loop leaves (client gone, failed write, service ended
+   the stream), [done] is closed; a reader parked with a message in its hand --
+   clientInputs full, nobody taking from it -- can then leave through [done], and
+   closes clientInputs on its way out. Closing the connection would not wake it. *)
+Theorem writer_gone_releases_reader m0 n acts s :
+  run fixed (init m0 n) acts = Some s -> wr (wk s) <> WLoop ->
+  done (wk s) = true /\
+  (forall m, rd (wk s) = RHave m ->
+     exists s1 s2, step fixed s RdDone = Some s1 /\ step fixed s1 RdFinish = Some s2 /\
+                   rd (wk s2) = RExit /\ cin_closed (wk s2) = true).
+Proof.
+  intros Hr Hw. pose proof (reachable_Inv _ _ _ _ Hr) as [[I1 I2 I3 I3' I4] _ Hc].
+  assert (Hd : done (wk s) = true).
+  { destruct (done (wk s)) eqn:E; auto. destruct I2 as [_ I2b]. elim Hw. now apply I2b. }
+  split; [exact Hd|]. intros m Hm.
+  assert (Hcc : cin_closed (wk s) = false).
+  { destruct (cin_closed (wk s)) eqn:E; auto. destruct I1 as [I1a _]. specialize (I1a eq_refl). congruence. }
+  unfold step. rewrite Hc. cbn. rewrite Hm, Hd. cbn. eexists. eexists. split; [reflexivity|].
+  cbn. rewrite Hc, Hcc. cbn. auto.
+Qed.
+
+Example writer_gone_releases_reader_example :
+  exists acts s m, run fixed (init (MReq 0) 1) acts = Some s /\ wr (wk s) <> WLoop /\
+    rd (wk s) = RHave m /\ length (cin (wk s)) = cin_cap /\ ad (pc s) = AExit.
+Proof.
+  exists ([AdTake; AdHandle; CSend MBad; RdMsg; RdSend; AdTake; AdBad] ++
+          flat_map (fun _ => [CSend (MReq 0); RdMsg; RdSend]) (seq 0 10) ++
+          [CSend (MReq 0); RdMsg; SEnd 0; FwRecv 0; WrOutClosed]).
+  eexists. eexists. vm_compute. repeat split; discriminate.
+Qed.
